@@ -146,6 +146,11 @@ def run(prog: Program, rep: Report, tier: str):
             t = fa.sym.term(c, n)
             if t[1][0] == "attr" and t[1][1] == ("self", "dataset") and t[2] and t[2][0][0] == "sub" and t[2][0][1][0] == "self":
                 maps.add(t[2][0][1][1])
+        if maps:
+            # other spellings of the same map kept by the constructor (an array next to its list copy)
+            fam_ = _attr_families(prog, C)
+            reps_ = {fam_.get(m_, m_) for m_ in maps}
+            maps |= {a_ for a_, r_ in fam_.items() if r_ in reps_} | {r_ for r_ in reps_}
         for meth in (gi, ga):
             ma = fa_of(prog, meth)
             for n, c in ma.calls():
@@ -188,7 +193,11 @@ def run(prog: Program, rep: Report, tier: str):
         assume = rejected_assumptions(ba)
         d_item = method_attr_deps(prog, C, gi, assume)
         d_all = method_attr_deps(prog, C, ga, assume)
-        missing = sorted(d_item - d_all - {"dataset"})
+        # attributes the constructor derives from one another (a list copy of an index array, ...) carry the same configuration
+        fam = _attr_families(prog, C)
+        rep_of = lambda a_: fam.get(a_, a_)
+        d_all_f = {rep_of(a_) for a_ in d_all}
+        missing = sorted(a_ for a_ in d_item - d_all - {"dataset"} if rep_of(a_) not in d_all_f)
         rep.decide(not missing, "G4.common-source", ga, "deps",
                    f"getall_class depends on {{{', '.join(sorted(d_all))}}} - covers getitem_class's {{{', '.join(sorted(d_item))}}}",
                    f"getitem_class depends on self.{', self.'.join(missing)} but getall_class does not (and does not reject such "
@@ -289,7 +298,7 @@ def wrapped_cache(prog: Program, rep: Report, wrappers):
                 if val is None:
                     continue
                 d = dep.of(val, node)
-                if ("self", "dataset") in d:
+                if ("self", "dataset") in d and _reads_samples(fa, val, node):
                     rep.bad("G8.no-wrapped-cache", fi, f"store:{var}", f"{fi.qualname} caches data obtained from the wrapped dataset "
                             f"in {var}: after the wrapped stack changes its labels, this accessor keeps returning the old ones "
                             f"while the other accessor returns the new ones", line=fa.line(node), clause="C16.3")
@@ -508,3 +517,54 @@ def unlabeled_marker(prog: Program, rep: Report):
                    f"'== -1' test: on that branch an unlabeled sample is rewritten like a labeled one", line=cfg.nodes[bypass[0]].lineno
                    if bypass else gi.node.lineno, clause="C16.3")
     rep.floor("label wrappers that test for the unlabeled marker", n, 1)
+
+
+def _reads_samples(fa: FA, e: ast.AST, at: int, depth: int = 5, _seen=None) -> bool:
+    """The value is computed (through the definitions of its locals) from what an accessor of the wrapped dataset returned -
+    getitem_* / getall_* / the bulk helpers - and not merely from its length or its configuration."""
+    _seen = set() if _seen is None else _seen
+    for y in ast.walk(e):
+        if isinstance(y, ast.Call):
+            f = y.func
+            nm = f.attr if isinstance(f, ast.Attribute) else getattr(f, "id", "")
+            if nm.startswith("getitem_") or nm.startswith("getall") or nm in ("get_class_counts", "get_class_counts_and_indices"):
+                return True
+            if isinstance(f, ast.Name) and f.id == "getattr" and len(y.args) >= 2:
+                return True
+        if isinstance(y, ast.Subscript) and isinstance(y.value, ast.Attribute) and y.value.attr == "dataset":
+            return True
+        if isinstance(y, ast.Name) and isinstance(y.ctx, ast.Load) and depth > 0:
+            for d in fa.cfg.reaching().get(at, {}).get(y.id, ()):
+                if (y.id, d) in _seen or fa.cfg.nodes[d].kind == "entry":
+                    continue
+                _seen.add((y.id, d))
+                v = fa.cfg.def_value(d, y.id)
+                if v is not None and _reads_samples(fa, v, d, depth - 1, _seen):
+                    return True
+    return False
+
+
+def _attr_families(prog: Program, C: ClassInfo) -> Dict[str, str]:
+    """attribute -> representative of its family: attributes that a constructor of the class computes from exactly one other
+    attribute of self and nothing else of the configuration (self.indices = self._indices.tolist())."""
+    parent: Dict[str, str] = {}
+
+    def find(a):
+        while parent.get(a, a) != a:
+            a = parent[a]
+        return a
+    types = AttrTypes(prog)
+    for owner, fi in types.init_chain(C):
+        me = fi.params()[0] if fi.params() else "self"
+        ps = set(fi.params()[1:])
+        for st in ast.walk(fi.node):
+            if isinstance(st, ast.Assign) and len(st.targets) == 1 and isinstance(st.targets[0], ast.Attribute) and \
+                    isinstance(st.targets[0].value, ast.Name) and st.targets[0].value.id == me:
+                used = {y.attr for y in ast.walk(st.value) if isinstance(y, ast.Attribute) and isinstance(y.value, ast.Name)
+                        and y.value.id == me}
+                names_ = {y.id for y in ast.walk(st.value) if isinstance(y, ast.Name)} - {me}
+                if len(used) == 1 and not (names_ & ps):
+                    a, b = find(st.targets[0].attr), find(next(iter(used)))
+                    if a != b:
+                        parent[a] = b
+    return {a: find(a) for a in list(parent)}
